@@ -488,11 +488,21 @@ def m_free(eng, st, fr, ins, a):
     return None
 
 
+def _lockmon_range(eng, st, addr, n, is_write, ins):
+    """bulk copies are accesses too (an optional<T> or a struct is copied with memcpy)"""
+    if eng.lockmon is not None and isinstance(addr, int) and isinstance(n, int) and n > 0:
+        if not hasattr(ins, "flags"):
+            return
+        eng.lockmon.access(eng, st, addr, n, is_write, ins)
+
+
 @prefix("llvm.memcpy", "llvm.memmove")
 def m_memcpy(eng, st, fr, ins, a):
     n = a[2]
     if not isinstance(n, int):
         n = eng.concrete_int(st, n, "memcpy length")
+    _lockmon_range(eng, st, a[1], n, False, ins)
+    _lockmon_range(eng, st, a[0], n, True, ins)
     eng.memcpy(st, a[0], a[1], n)
     return None
 
@@ -500,6 +510,8 @@ def m_memcpy(eng, st, fr, ins, a):
 @model("memcpy", "memmove")
 def m_memcpy2(eng, st, fr, ins, a):
     n = eng.concrete_int(st, a[2], "memcpy length")
+    _lockmon_range(eng, st, a[1], n, False, ins)
+    _lockmon_range(eng, st, a[0], n, True, ins)
     eng.memcpy(st, a[0], a[1], n)
     return a[0]
 
@@ -509,6 +521,7 @@ def m_memset(eng, st, fr, ins, a):
     n = a[2]
     if not isinstance(n, int):
         n = eng.concrete_int(st, n, "memset length")
+    _lockmon_range(eng, st, a[0], n, True, ins)
     eng.memset(st, a[0], a[1], n)
     return None
 
